@@ -40,6 +40,10 @@ var certShapeNames = []string{"nil", "empty", "under-quorum", "forged", "wrong-r
 // committee of the validator set AFTER the block.
 var c08Aim uint64
 
+// c08Flood directs the next fork experiment at an own branch that carries more transactions of
+// one sender than the pool queues per address.
+var c08Flood bool
+
 // shapeCert builds a certificate of the wanted shape for block b on builder's head state
 // (= the validator view at b's parent). Returns nil,false if the shape cannot be formed.
 func shapeCert(w *World, r *verifutil.Rng, builder *Replica, prev *types.Header, b *types.Block, shape certShape) (*types.BlockCert, bool) {
@@ -203,6 +207,19 @@ func TestVerifC08(t *testing.T) {
 				rep.Note("scenario %d stopped at step %d: block refused (%v)", sc, i, res.Errs)
 				break
 			}
+			// floods: four consecutive blocks with a dozen transfers of one sender each, then a fork
+			// that abandons them
+			if ph := i % 45; ph >= 30 && ph < 34 && len(w.Blocks) >= 12 {
+				for k := 0; k < 12; k++ {
+					to := w.anyAddr(r)
+					s.SubmitGen(&Gen{Tx: w.Tx(w.God, types.SendTx, &to, Dna(1), nil), Kind: "flood:Send"})
+				}
+			}
+			if i%45 == 34 && len(w.Blocks) >= 12 {
+				c08Flood = true
+				forkExperiment(w, rep, r, sc, i)
+				c08Flood = false
+			}
 			if len(w.Blocks) >= 12 {
 				// directed: a status-switch height lies 1..4 blocks ahead
 				h := w.Replicas[1].Head().Height()
@@ -241,6 +258,12 @@ func forkExperiment(w *World, rep *verifutil.Report, r *verifutil.Rng, sc, step 
 		}
 	case 2:
 		m = d + r.Range(1, 4)
+	}
+	if c08Flood {
+		d = r.Range(4, minInt(6, maxD))
+		ancestor = head - uint64(d)
+		lenClass = 2
+		m = d + r.Range(1, 3)
 	}
 	if c08Aim != 0 {
 		d = r.Range(1, minInt(2, maxD))
@@ -302,6 +325,9 @@ func forkExperiment(w *World, rep *verifutil.Report, r *verifutil.Rng, sc, step 
 	innerShape := certShape(r.Pick(4, 2, 1, 1, 1, 4, 0))
 	tamperTip := r.Intn(8) == 0
 	contentClass := "plain"
+	if c08Flood {
+		tipShape, innerShape, tamperTip = certValid, certValid, false
+	}
 	var comesOnline *Actor
 	if c08Aim != 0 {
 		tipShape, tamperTip = certValid, false // replaced by the post-block certificate below when one can be formed
@@ -494,6 +520,57 @@ func forkExperiment(w *World, rep *verifutil.Report, r *verifutil.Rng, sc, step 
 	sort.Strings(got)
 	if fmt.Sprint(want) != fmt.Sprint(got) {
 		rep.Violation("reverted-txs-differ", fmt.Sprintf("abandoned blocks carried %d txs, %d were handed back (%v vs %v)", len(want), len(got), want, got), nil)
+	}
+	// ---- re-inclusion: the engine hands the list to the pool as it got it
+	// (engine.txpool.AddExternalTxs(MempoolTx, revertedTxs...)); what the pool keeps must not be
+	// less than what it keeps when the same txs arrive in the order the abandoned blocks carried them
+	if len(reverted) > 0 {
+		inFork := map[common.Hash]bool{}
+		for _, tx := range forkTxs {
+			inFork[tx.Hash()] = true
+		}
+		var chainOrder []*types.Transaction
+		perSender := map[common.Address]int{}
+		for _, ob := range own {
+			for _, tx := range ob.Body.Transactions {
+				chainOrder = append(chainOrder, tx)
+				if !inFork[tx.Hash()] {
+					perSender[senderOf(tx)]++
+				}
+			}
+		}
+		maxPer := 0
+		for _, n := range perSender {
+			if n > maxPer {
+				maxPer = n
+			}
+		}
+		rep.Max("max_reverted_txs_of_one_sender", maxPer)
+		if maxPer > A.Cfg.Mempool.TxPoolAddrQueueLimit {
+			rep.Count("adoptions_reverting_more_txs_of_one_sender_than_the_queue_limit", 1)
+		}
+		if A2, err := tmpReplica(w, w.God, CloneDB(A.DB), "adopterCopy"); err == nil {
+			A.TxPool.AddExternalTxs(validation.MempoolTx, reverted...)
+			A2.TxPool.AddExternalTxs(validation.MempoolTx, chainOrder...)
+			have := map[common.Hash]bool{}
+			for _, tx := range A.TxPool.VerifAll() {
+				have[tx.Hash()] = true
+			}
+			lost := 0
+			var example *types.Transaction
+			for _, tx := range A2.TxPool.VerifAll() {
+				if !have[tx.Hash()] {
+					lost++
+					example = tx
+				}
+			}
+			rep.Count("reinclusion_checks", 1)
+			rep.Count("reverted_txs_back_in_pool", len(have))
+			if lost > 0 {
+				rep.Violation("reverted-txs-not-reincludable", fmt.Sprintf("%d of the %d transactions of the abandoned blocks are refused by the pool when handed back in the order ApplyFork returned them, although the pool keeps them when they arrive in the order the blocks carried them (e.g. %s nonce %d; most txs of one sender: %d)",
+					lost, len(reverted), TxName(example.Type), example.AccountNonce, maxPer), nil)
+			}
+		}
 	}
 	// ---- the reference: a node that followed the fork from the start (clean replay from genesis)
 	C, err := tmpReplica(w, w.God, dbm.NewMemDB(), "cleanSync")
